@@ -551,7 +551,7 @@ pub fn property_c11() -> Property {
             Sub::new("wellformed", gnu_well, 2600, 200_000, 8_000_000),
             Sub::new("sound", gnu_sound, 2600, 200_000, 8_000_000),
             Sub::enumerated("hashfn_small", gnu_hs, enum_hash_small, true),
-            Sub::new("hashfn_random", gnu_hr, 80, 2_000_000, 40_000_000),
+            Sub::new("hashfn_random", gnu_hr, 160, 2_000_000, 40_000_000),
         ],
         extras: vec![crate::fuzz::c11_choice_well, crate::fuzz::c11_choice_sound],
     }
@@ -567,7 +567,7 @@ pub fn property_c12() -> Property {
             Sub::new("wellformed", sysv_well, 2600, 200_000, 8_000_000),
             Sub::new("sound", sysv_sound, 2600, 200_000, 8_000_000),
             Sub::enumerated("hashfn_small", sysv_hs, enum_hash_small, true),
-            Sub::new("hashfn_random", sysv_hr, 80, 2_000_000, 40_000_000),
+            Sub::new("hashfn_random", sysv_hr, 160, 2_000_000, 40_000_000),
         ],
         extras: vec![crate::fuzz::c12_choice_well, crate::fuzz::c12_choice_sound],
     }
